@@ -58,6 +58,7 @@ type SimTask struct {
 	ClassName  string
 	Mode       string // basic | direct | fairmq | hook
 	State      string // O² state as the simulated executor sees it
+	Props      map[string]string // properties pushed with the transition commands so far (what the task holds)
 	Mesos      mesos.TaskState
 	Terminal   bool
 	Info       *mesos.TaskInfo
@@ -709,10 +710,23 @@ func (m *Master) transition(fw string, cmd *controlcommands.MesosCommand_Transit
 		}
 	}
 	cls := ""
+	heldSoeor := ""
 	if t != nil {
 		cls = ShortClass(t.Name)
+		// a task keeps the properties it was given until a later command overwrites them
+		m.mu.Lock()
+		if real, ok := m.tasks[t.ID]; ok { // (t is a copy)
+			if real.Props == nil {
+				real.Props = map[string]string{}
+			}
+			for k, v := range cmd.Arguments {
+				real.Props[k] = v
+			}
+			heldSoeor = real.Props["run_end_time_ms"]
+		}
+		m.mu.Unlock()
 	}
-	m.rec("MMessage", "cmd", cmd.Id.String(), "event", cmd.Event, "src", cmd.Source, "dst", cmd.Destination, "task", tg.TaskId.Value,
+	m.rec("MMessage", "held_soeor", heldSoeor, "cmd", cmd.Id.String(), "event", cmd.Event, "src", cmd.Source, "dst", cmd.Destination, "task", tg.TaskId.Value,
 		"class", cls, "env", cmd.EnvironmentId.String(), "argkeys", argKeys(cmd.Arguments), "chans", chans, "rn", cmd.Arguments["runNumber"],
 		"outcome", string(out), "known", t != nil)
 	if t == nil {
